@@ -32,7 +32,7 @@ func (propC12) NewParams() any { return &C12Params{} }
 
 func (propC12) Plan(tier string) (int, int) {
 	if tier == "thorough" {
-		return 40000, 0
+		return 120000, 0
 	}
 	return 2500, 0
 }
